@@ -15,6 +15,8 @@ def main():
     ap.add_argument("prop")
     ap.add_argument("--tier", default=os.environ.get("VERIF_TIER") or "quick", choices=["quick", "thorough"])
     a = ap.parse_args()
+    if a.tier == "thorough" and not os.environ.get("PVC_CROSS_EVERY"):
+        os.environ["PVC_CROSS_EVERY"] = "25"       # thorough: every 25th discharged obligation re-decided by two other solver builds
     mod = importlib.import_module(f"pvc.checks.{a.prop.lower()}")
     rep = Report(a.prop, a.tier, getattr(mod, "LEVEL", "proof"))
     try:
